@@ -86,7 +86,12 @@ class C01(Prop):
         from .. import timegen as tg
         for name in ("c07", "c08", "c09", "c16"):
             try:
-                cs = importlib.import_module(f"vlib.props.{name}").PROP.cases("quick", seed)
+                owner = importlib.import_module(f"vlib.props.{name}").PROP
+                cs = owner.cases("quick", seed)
+                # cases their owner judges by its oracle alone (no model) are judged by the grammar oracle alone here
+                for c in cs:
+                    if owner.compare_from(c):
+                        c.fields = [("nomodel", ["1"])] + list(c.fields)
             except Exception as ex:            # pragma: no cover
                 print(f"note: C01 skips the {name} population: {ex}")
                 continue
@@ -240,7 +245,7 @@ class C01(Prop):
         if case.suite == "coop":
             return len(case.events)
         # two subscriptions of one pipeline value (field `twosubs`) have no model: the oracle decides
-        if case.field("twosubs"):
+        if case.field("twosubs") or case.field("nomodel"):
             return len(case.events)
         # pipelines with a flattening node (C16's inner-producer family) have no chain model either: grammar oracle only
         f = case.field("pipe")
